@@ -2,6 +2,7 @@ import Model.Common.GroupOps
 import Model.Common.Py
 import Generated.VarInt
 import Generated.Taproot
+import Model.C12.Script
 /-
 C12 — taproot output keys, script trees and control blocks (`btclib/script/taproot.py`), mirrored
 function by function.  Core Lean only.
@@ -12,8 +13,9 @@ function by function.  Core Lean only.
 * every constant (tags, 33/32 layout, masks, depth cap, NUMS point) is `Gen.Taproot.*`, regenerated
   from the source on every run; CompactSize is the translated `Gen.VarInt.serialize`.
 
-A leaf script is its *serialized* bytes here (what `leaf_hash` and `check_output_pubkey` take); the
-command-list → bytes step (`taproot.serialize`) belongs to the script codec, not to this property.
+A leaf script is its *serialized* bytes in `Tree` (what `leaf_hash` and `check_output_pubkey` take); the command-list →
+bytes step (`taproot.serialize`, every command kind it accepts) is `serializeTap` of Model/C12/Script.lean, reached from
+`PyVal.script`.
 -/
 namespace Btc.Taproot
 open Btc Gen.Taproot
@@ -33,15 +35,18 @@ inductive Err
   | vtype     -- BTClibTypeError "invalid leaf version type"  (_tree_helper / leaf_hash: not an int, or a bool)
   | stype     -- BTClibTypeError "invalid tapscript type"     (taproot.serialize: the script is not a list)
   | deep      -- "a script tree supports at most 128 nesting levels"  (_subtree_helper: depth > MAX_TREE_DEPTH)
-  | codec     -- a list in script position that is not given as `PyVal.cmds`: what `taproot.serialize` answers for it
-              -- is the script codec's business, outside this model (never produced by the harness)
+  | cmd       -- BTClibValueError of `taproot.serialize`: a str that is no op code / OP_SUCCESSx / hex, an OP_SUCCESSx not followed
+              -- by exactly one bytes command, a number outside int64, a push of 2^32 octets or more
+  | ctype     -- BTClibTypeError of `taproot.serialize`: a command that is neither int, str nor bytes-like (or a bool)
+  | codec     -- a list in script position given as a TREE shape (`one` / `two` / `many` with isList) instead of as
+              -- `PyVal.script` / `PyVal.cmds`: not judged under that spelling (the harness spells every such list as `script`)
   deriving DecidableEq, Repr
 
 def Err.name : Err → String
   | .toolong => "toolong" | .badlen => "badlen" | .tweak => "tweak" | .key => "key"
   | .missing => "missing" | .index => "index" | .prv => "prv" | .version => "version"
   | .node => "node" | .leaf => "leaf" | .vtype => "vtype" | .stype => "stype" | .codec => "codec"
-  | .deep => "deep"
+  | .deep => "deep" | .cmd => "cmd" | .ctype => "ctype"
 
 /-- a script tree: `[(version, script)]` is a leaf, `[left, right]` a branch -/
 inductive Tree where
@@ -290,6 +295,8 @@ inductive PyVal where
   | atom (truthy : Bool)                -- None, str, bytes, bool, float, …: neither list/tuple nor integer
   | cmds (n : Nat) (b : Bytes)          -- a LIST of `n` script commands, each a str or bytes (what `taproot.parse` returns:
                                         -- no int, no sequence), that `taproot.serialize` turns into `b`
+  | script (cs : List Cmd)              -- a LIST of script commands of ANY kind (int, str, bytes-like, other object): what
+                                        -- `taproot.serialize` makes of it is `serializeTap cs`
   | nil (isList : Bool)                 -- `[]` / `()`
   | one (isList : Bool) (x : PyVal)     -- `[x]` / `(x,)`
   | two (isList : Bool) (x y : PyVal)   -- `[x, y]` / `(x, y)`
@@ -301,12 +308,18 @@ def PyVal.truthy : PyVal → Bool
   | .int v => v != 0
   | .atom b => b
   | .cmds n _ => n != 0
+  | .script cs => !cs.isEmpty
   | .nil _ => false
   | _ => true
 
 /-- `serialize(script)` seen from `_tree_helper`: `assert_type(script, list, "tapscript")`, then the codec -/
 def PyVal.scriptBytes : PyVal → Except Err Bytes
   | .cmds _ b => .ok b
+  | .script cs =>
+    match serializeTap cs with
+    | .ok b => .ok b
+    | .error .type => .error .ctype
+    | .error _ => .error .cmd
   | .nil true => .ok []
   | .one true _ | .two true _ _ | .many true _ => .error .codec
   | _ => .error .stype
@@ -317,6 +330,8 @@ def PyVal.toLeaf : PyVal → Except Err Tree
   | .two _ (.int v) s => (s.scriptBytes).map (Tree.leaf (v % 256).toNat)
   | .two _ _ _ => .error .vtype
   | .cmds 2 _ => .error .vtype      -- `[["OP_1", "OP_2"]]`: a 2-sequence whose first half is a str
+  | .script [.int _, _] => .error .stype   -- `[[0xC0, "OP_1"]]`: an int version, and a script that is no list
+  | .script [_, _] => .error .vtype        -- a 2-sequence whose first half is a str / bytes / other object
   | _ => .error .leaf
 
 /-- `_subtree_helper(script_tree, depth)`: the guards in the order the code meets them — the depth guard
@@ -333,8 +348,12 @@ def PyVal.toTreeAt (d : Nat) : PyVal → Except Err Tree
       | .error e => .error e
       | .ok tr => .ok (.node tl tr)
   | .cmds 1 _ => if d > MAX_TREE_DEPTH then .error .deep else .error .leaf   -- `["OP_1"]`: one element, and it is no pair
+  | .script [_] => if d > MAX_TREE_DEPTH then .error .deep else .error .leaf
+  -- two commands: a branch whose children (no list / tuple) are met ONE LEVEL DOWN, the depth guard first there too
+  | .cmds 2 _ | .script [_, _] =>
+    if d > MAX_TREE_DEPTH then .error .deep else if d + 1 > MAX_TREE_DEPTH then .error .deep else .error .node
   | _ => if d > MAX_TREE_DEPTH then .error .deep else .error .node
-      -- not a list/tuple, or 0 / 3+ elements; `cmds 2 _` recurses into a command
+      -- not a list/tuple, or 0 / 3+ elements
 
 /-- `tree_helper(script_tree) = _subtree_helper(script_tree, 0)` -/
 def PyVal.toTree (v : PyVal) : Except Err Tree := v.toTreeAt 0
